@@ -269,6 +269,11 @@ def main(argv=None):
         print(f"VIOLATION property={prop} replay={path}")
     if violations:
         return 1
+    if hasattr(mod, "post_merge"):
+        msg = mod.post_merge(classes, evaluations, args.tier)
+        if msg:
+            print(f"HARNESS-ERROR property={prop} {msg}")
+            return 2
     if evaluations == 0 or len(nontriv) < 2 or frac < floor:
         print(f"HARNESS-ERROR property={prop} vacuous run: nontrivial fraction {frac:.2f} "
               f"< floor {floor} (evaluations={evaluations})")
